@@ -10,7 +10,7 @@ TAG=$(basename "$(dirname "$PATCH")")_$$
 W=/var/tmp/vm_$TAG
 mkdir -p $W $V/.build/mutants
 git -C /repo worktree add --detach -f $W/repo HEAD >/dev/null 2>&1 || { echo "worktree failed"; exit 2; }
-if ! git -C $W/repo apply "$PATCH"; then echo "MUTANT $PATCH does-not-apply"; git -C /repo worktree remove --force $W/repo; rm -rf $W; exit 2; fi
+if ! git -C $W/repo apply "$PATCH" 2>/dev/null && ! (cd $W/repo && patch -p1 -F3 --no-backup-if-mismatch -s < "$PATCH"); then echo "MUTANT $PATCH does-not-apply"; git -C /repo worktree remove --force $W/repo; rm -rf $W; exit 2; fi
 rsync -a --exclude .git --exclude '.build/repo-asan' --exclude '.build/mutants' --exclude '.build/harness' $V/ $W/verif/
 # the copied cmake build dir refers to /repo as its source: reconfigure against the worktree (objects are rebuilt)
 rm -rf $W/verif/.build/repo-rel $W/verif/.build/locks
